@@ -175,6 +175,7 @@ func init() {
 				got *c06Outcome
 			}
 			var worlds []*world2
+			var accepted, rejected []string
 			for _, ord := range orders {
 				svc, err := c06Service(tab, ord)
 				if err != nil {
@@ -201,12 +202,23 @@ func init() {
 				})
 				tc, err := world.Build(world.Config{Service: svc, Protocols: []vanguard.Protocol{vanguard.ProtocolConnect}, Codecs: []string{"proto"}}, handler)
 				if err != nil {
-					c.Outcome("table-rejected")
-					c.Note("table-rejected")
-					return // not a table NewTranscoder accepts (C17 judges that)
+					rejected = append(rejected, fmt.Sprintf("order %v: %v", ord, err))
+					continue
 				}
 				w2.tc = tc
 				worlds = append(worlds, w2)
+				accepted = append(accepted, fmt.Sprint(ord))
+			}
+			if len(rejected) > 0 {
+				if len(accepted) > 0 {
+					// whether a table can be served does not depend on the order of its rules either
+					c.Attr("class", "acceptance-depends-on-order")
+					c.Fail("C06.depends-on-registration-order", "table %v is accepted by NewTranscoder in registration order(s) %v but rejected in another: %s", tab.bindings, accepted, rejected[0])
+					return
+				}
+				c.Outcome("table-rejected")
+				c.Note("table-rejected")
+				return // not a table NewTranscoder accepts (C17 judges that)
 			}
 			c.Note("table-accepted")
 			evals := 0
@@ -386,6 +398,47 @@ func init() {
 						c.Fail("C06.wrong-dispatch", "%s %s on table %v: transcoder answered: %s; acceptable per the template grammar: %v", hm, path, tab.bindings, got, wants)
 					}
 				}
+			}
+			// A middleware in front of the transcoder that rewrites only URL.Path (the
+			// strings.TrimPrefix(r.URL.Path, "/api") idiom, path aliasing) leaves URL.RawPath stale.
+			// net/url's contract: RawPath is a hint that counts only while it is an encoding of Path
+			// (EscapedPath ignores it otherwise). Differential: such a request must be routed exactly
+			// like a fresh request for the path the URL now denotes.
+			for pi, path := range paths {
+				if pi%8 != chunk || !strings.ContainsAny(path, "%é") {
+					continue
+				}
+				w2 := worlds[0]
+				serve := func(req *http.Request) (c06Outcome, bool) {
+					w2.got = nil
+					rec := drive.NewRecorder()
+					if pn := drive.Serve(w2.tc, rec, rec, req, nil); pn != nil {
+						c.Fail("C06.panic", "GET %s (stale RawPath) on table %v: %s\n%s", path, tab.bindings, pn.Value, stackTop(pn.Stack))
+						return c06Outcome{}, false
+					}
+					if w2.got != nil {
+						return *w2.got, true
+					}
+					return c06Outcome{status: rec.Status}, true
+				}
+				mounted, err := (&drive.ReqSpec{Method: "GET", Target: "/api" + path, Header: http.Header{}, ContentLength: -1, NoBody: true}).Build(context.Background())
+				if err != nil || mounted.URL.RawPath == "" {
+					continue
+				}
+				mounted.URL.Path = strings.TrimPrefix(mounted.URL.Path, "/api") // RawPath still says /api/...
+				eff := mounted.URL.EscapedPath()
+				fresh, err := (&drive.ReqSpec{Method: "GET", Target: eff, Header: http.Header{}, ContentLength: -1, NoBody: true}).Build(context.Background())
+				if err != nil {
+					continue
+				}
+				evals++
+				a, ok1 := serve(fresh)
+				b, ok2 := serve(mounted)
+				if ok1 && ok2 && a != b {
+					c.Attr("class", "stale-rawpath")
+					c.Fail("C06.routed-by-stale-rawpath", "GET with URL.Path %q and a stale URL.RawPath %q (a middleware rewrote Path only) on table %v: %s; a fresh request for %s gets: %s", mounted.URL.Path, mounted.URL.RawPath, tab.bindings, b, eff, a)
+				}
+				c.Note("stale-rawpath-compared")
 			}
 			c.AddEvaluations(evals * len(worlds))
 			c.Outcome("table-checked")
